@@ -249,7 +249,11 @@ impl Float {
         // 'rhs' by higher powers of two, and subtract it from LHS, until LHS is
         // lower than RHS.
         while lhs >= rhs && lhs.is_normal() {
-            let scale = lhs.get_exp() - rhs.get_exp();
+            // Measure the distance between the leading bits, not between the
+            // exponent fields, which overstate the magnitude of subnormals.
+            let lhs_top = lhs.get_exp() + lhs.get_mantissa().msb_index() as i64;
+            let rhs_top = rhs.get_exp() + rhs.get_mantissa().msb_index() as i64;
+            let scale = lhs_top - rhs_top;
 
             // Scale RHS by a power of two. If we overshoot, take a step back.
             let mut diff = rhs.scale(scale, RoundingMode::None);
